@@ -441,11 +441,25 @@ impl Database {
             cv.notify_all();
         }
         let handles: Vec<_> = self.0.bg_tasks.lock().drain(..).collect();
+        // Join every task before reporting the first failure: a handle dropped
+        // unjoined leaves its thread running on a DatabaseInner that Drop is about to free.
+        let mut result = Ok(());
+        let mut panic = None;
         for handle in handles {
-            handle.join().unwrap()?;
+            match handle.join() {
+                Ok(r) => {
+                    if result.is_ok() {
+                        result = r;
+                    }
+                }
+                Err(p) => panic = Some(p),
+            }
         }
         *self.0.bg_sync.0.lock() = false;
-        Ok(())
+        if let Some(p) = panic {
+            std::panic::resume_unwind(p);
+        }
+        result
     }
 
     fn punch_holes(&self) -> Result<()> {
